@@ -257,6 +257,10 @@ SessionKept == \A g \in 1..Len(conns) : (conns[g].accepted /\ \E h \in 1..(g - 1
 C02_NoDupQoS2 == (fresh = "Write" /\ SessionKept) =>
   \A t \in Range(wire[NW].deliv) : (\E j \in W : IsPub(j) /\ wire[j].tag = t /\ wire[j].qos = 2) => Count(delivered, t) <= 1
 C02_DeliveredOnce == (Drained /\ SessionKept) => \A t \in Q2Tags : Count(delivered, t) = 1
+\* "never zero times": with the broker reachable the exchange of every accepted QoS 2 message completes before the run's
+\* deadline (finite stand-in for "eventually", as C01_Progress): a client that keeps reconnecting or waits for ever
+\* without finishing the exchange has not delivered exactly once
+C02_ExchangeCompletes == (fresh = "Idle" /\ Feasible /\ SessionKept /\ Q2Tags # {}) => idle.drained
 \* nothing is transmitted for a message after its PUBCOMP has been consumed
 C02_SilentAfterComp == fresh = "Write" =>
   LET j == NW IN
@@ -414,7 +418,7 @@ C18_NoStall == (fresh = "Idle" /\ Cfg.respTimeout /\ Feasible /\ Dropped # {}) =
 
 Obs == [
   C01_StableDone |-> C01_StableDone, C01_Progress |-> C01_Progress,
-  C02_NoDupQoS2 |-> C02_NoDupQoS2, C02_DeliveredOnce |-> C02_DeliveredOnce, C02_SilentAfterComp |-> C02_SilentAfterComp,
+  C02_NoDupQoS2 |-> C02_NoDupQoS2, C02_DeliveredOnce |-> C02_DeliveredOnce, C02_SilentAfterComp |-> C02_SilentAfterComp, C02_ExchangeCompletes |-> C02_ExchangeCompletes,
   C03_OrderPerConn |-> C03_OrderPerConn, C03_FirstTxOrder |-> C03_FirstTxOrder, C03_FirstDeliveryOrder |-> C03_FirstDeliveryOrder,
   C08_StableSubs |-> C08_StableSubs, C08_NoResubUnlessDue |-> C08_NoResubUnlessDue,
   C12_DupFlag |-> C12_DupFlag, C12_SameOnRetx |-> C12_SameOnRetx, C12_NoPubAfterRel |-> C12_NoPubAfterRel,
